@@ -2,7 +2,6 @@ package main
 
 import (
 	"fmt"
-	"sort"
 	"strings"
 )
 
@@ -22,6 +21,7 @@ type grounder struct {
 	out     []*Term
 	budget  int
 	changed bool
+	depth   int
 }
 
 func headKey(t *Term) string {
@@ -62,8 +62,78 @@ func (g *grounder) addGround(t *Term) {
 			k := headKey(s)
 			g.index[k] = append(g.index[k], s)
 			g.changed = true
+			// matching is syntactic; reads over writes are offered in their possible simplified forms too
+			// (instantiating with any term is sound)
+			if g.depth < 3 {
+				for _, v := range variants(s, 0) {
+					if v != s && !g.seen[v] {
+						g.depth++
+						g.addGround(v)
+						g.depth--
+					}
+				}
+			}
 		}
 	}
+}
+
+// variants of a ground term under "select(store(a,i,v),j) is v or select(a,j)", pushed through selectors.
+func variants(t *Term, depth int) []*Term {
+	if depth > 6 {
+		return []*Term{t}
+	}
+	switch {
+	case t.kind == tApp && t.Op == "select" && len(t.Args) == 2:
+		base, j := t.Args[0], t.Args[1]
+		var out []*Term
+		if base.kind == tApp && base.Op == "store" && len(base.Args) == 3 {
+			if base.Args[2].Sort == t.Sort {
+				out = append(out, variants(base.Args[2], depth+1)...)
+			}
+			out = append(out, variants(Select(base.Args[0], j), depth+1)...)
+		} else if base.kind == tApp && base.Op == "ite" && len(base.Args) == 3 {
+			out = append(out, variants(Select(base.Args[1], j), depth+1)...)
+			out = append(out, variants(Select(base.Args[2], j), depth+1)...)
+		} else {
+			for _, b := range variants(base, depth+1) {
+				if b != base {
+					out = append(out, variants(Select(b, j), depth+1)...)
+				}
+			}
+		}
+		out = append(out, t)
+		if len(out) > 8 {
+			out = out[:8]
+		}
+		return out
+	case t.kind == tSel && len(t.Args) == 1:
+		var out []*Term
+		x := t.Args[0]
+		if x.kind == tApp && x.Op == "ite" && len(x.Args) == 3 {
+			out = append(out, variants(selLike(t, x.Args[1]), depth+1)...)
+			out = append(out, variants(selLike(t, x.Args[2]), depth+1)...)
+		} else {
+			for _, b := range variants(x, depth+1) {
+				if b != x {
+					out = append(out, variants(selLike(t, b), depth+1)...)
+				}
+			}
+		}
+		out = append(out, t)
+		if len(out) > 8 {
+			out = out[:8]
+		}
+		return out
+	}
+	return []*Term{t}
+}
+
+// selLike applies the selector of t to another term of the same datatype.
+func selLike(t, x *Term) *Term {
+	if x.Sort != t.Args[0].Sort || t.Lit == nil {
+		return t
+	}
+	return SelField(x, int(t.Lit.Int64()))
 }
 
 // match extends binding so that pattern p equals ground term t (syntactically; terms are hash-consed).
@@ -113,7 +183,7 @@ func mentions(t *Term, vars map[*Term]bool, memo map[*Term]map[*Term]bool) map[*
 }
 
 // autoPatterns: the minimal pattern-head subterms of body that mention all variables; if there is none, one
-// multi-pattern made of a minimal subterm per variable.
+// multi-pattern made of a smallest subterm per variable.
 func autoPatterns(body *Term, vars []*Term) [][]*Term {
 	vset := map[*Term]bool{}
 	for _, v := range vars {
@@ -125,7 +195,6 @@ func autoPatterns(body *Term, vars []*Term) [][]*Term {
 	full := map[*Term]bool{}
 	for _, t := range order {
 		if isPatternHead(t) && len(mentions(t, vset, memo)) == len(vars) {
-			// no nested quantifier variables other than ours
 			full[t] = true
 		}
 	}
@@ -152,7 +221,6 @@ func autoPatterns(body *Term, vars []*Term) [][]*Term {
 	if len(res) > 0 || len(vars) < 2 {
 		return res
 	}
-	// multi-pattern: one smallest pattern-head term per variable
 	var multi []*Term
 	for _, v := range vars {
 		var best *Term
@@ -367,7 +435,6 @@ func groundObligation(o *Obligation, rounds int) *Obligation {
 			break
 		}
 	}
-	// deterministic order, no duplicates
 	seen := map[*Term]bool{}
 	var uniq []*Term
 	for _, t := range ground {
@@ -376,6 +443,5 @@ func groundObligation(o *Obligation, rounds int) *Obligation {
 			uniq = append(uniq, t)
 		}
 	}
-	_ = sort.Strings
 	return &Obligation{Unit: o.Unit, Kind: o.Kind, Label: o.Label, Site: o.Site, Assumes: uniq, Goal: goal, Src: o.Src, prog: o.prog, Inputs: o.Inputs}
 }
